@@ -226,12 +226,12 @@ Section Denotes.
 End Denotes.
 
 (** the observations the model makes of itself (same shape as the harness' dump) *)
-Definition cx_types (c : cx) : list (cx_res cx_ty) :=
-  (fix go (rest : list cx_node) (i : N) : list (cx_res cx_ty) :=
-     match rest with
-     | [] => []
-     | _ :: t => cx_type_of (cx_exprs c) i :: go t (N.succ i)
-     end) (cx_exprs c) 0.
+Fixpoint cx_types_from (es rest : list cx_node) (i : N) : list (cx_res cx_ty) :=
+  match rest with
+  | [] => []
+  | _ :: t => cx_type_of es i :: cx_types_from es t (N.succ i)
+  end.
+Definition cx_types (c : cx) : list (cx_res cx_ty) := cx_types_from (cx_exprs c) (cx_exprs c) 0.
 
 Definition cx_flags (c : cx) : list (bool * bool) :=
   map (fun n => (cx_is_true n, cx_is_false n)) (cx_exprs c).
